@@ -275,6 +275,46 @@ Section Total.
     apply nth_error_None in E. unfold n in *. lia.
   Qed.
 
+  (* ------------------------------------------------------------ backwards *)
+  Lemma cross_back_fine : forall f ies, bytes_ok f ->
+    Forall (fun km => bm_limit (snd km) <= len f) ies -> fine (cross_back crc f ies).
+  Proof.
+    intros f ies Hb. induction ies as [|[k m] ies IH]; intros H; [exact I|]. inversion H as [|? ? Hm Hr]; subst.
+    cbn [cross_back]. destruct (load_block_spec f m Hb Hm) as [(b & -> & Hw)|[e ->]]; cbn [sbind]; [|exact I].
+    destruct (bc_prev_spec b PLast Hw I) as [Hf _].
+    destruct (bc_prev b PLast) as [q|e| | |]; cbn [fine] in Hf; try contradiction; cbn [sbind]; [|exact I].
+    destruct (is_at q); [exact I|apply IH; exact Hr].
+  Qed.
+
+  Lemma sst_last_key_fine : forall t, sst_wf t -> fine (sst_last_key crc t).
+  Proof.
+    intros t (Hb & Hi & _). unfold sst_last_key. apply fine_bind; [|intros; exact I].
+    apply cross_back_fine; [exact Hb|]. apply Forall_rev. exact Hi.
+  Qed.
+
+  Lemma sst_meta_keys_fine : forall t, sst_wf t -> fine (sst_meta_keys crc t).
+  Proof.
+    intros t Hw. unfold sst_meta_keys. apply fine_bind; [apply sst_first_key_fine; exact Hw|]. intros a _.
+    apply fine_bind; [apply sst_last_key_fine; exact Hw|]. intros; exact I.
+  Qed.
+
+  (* the backward walk never panics and never over-allocates; WFuel is not excluded *)
+  Definition wno_panic (w : wend) : Prop := match w with WPanic | WHuge => False | _ => True end.
+
+  Lemma walk_back_blocks_no_panic : forall f ies, bytes_ok f ->
+    Forall (fun km => bm_limit (snd km) <= len f) ies -> wno_panic (snd (walk_back_blocks crc f ies)).
+  Proof.
+    intros f ies Hb. induction ies as [|[k m] ies IH]; intros H; [exact I|]. inversion H as [|? ? Hm Hr]; subst.
+    cbn [walk_back_blocks]. destruct (load_block_spec f m Hb Hm) as [(b & -> & Hw)|[e ->]]; [|exact I].
+    pose proof (back_loop_no_panic b Hw (4 * length (b_bytes b) + 4) PLast [] I) as Hn. unfold back_block.
+    destruct (back_loop (4 * length (b_bytes b) + 4) b PLast []) as [es r]. cbn [snd] in Hn.
+    destruct r as [q|e| | |]; cbn [no_panic] in Hn; try contradiction; try exact I.
+    specialize (IH Hr). destruct (walk_back_blocks crc f ies) as [es2 w]. exact IH.
+  Qed.
+
+  Lemma sst_walk_back_no_panic : forall t, sst_wf t -> wno_panic (snd (sst_walk_back crc t)).
+  Proof. intros t (Hb & Hi & _). apply walk_back_blocks_no_panic; [exact Hb|apply Forall_rev; exact Hi]. Qed.
+
   Variable sip : list N -> N.
   Variable pp : list (list N) -> list N -> N.
   Hypothesis pp_bound : forall l k, pp l k <= N.of_nat (length l).
